@@ -1,0 +1,16 @@
+//go:build verif
+// +build verif
+
+// Exports for the external verification harness (/verif). Compiled only with -tags verif.
+
+package leveldb
+
+import (
+	"github.com/syndtr/goleveldb/leveldb/filter"
+)
+
+// VerifIFilter wraps a user filter policy exactly as session.setOptions does for the tables of
+// a DB: keys are internal keys, the policy sees the user key.
+func VerifIFilter(f filter.Filter) filter.Filter {
+	return &iFilter{f}
+}
